@@ -42,6 +42,9 @@ Added probe families (helpers in harness/s5_c13.py):
  * multi-word enum / flag base types (`enum E : unsigned long long {...}`, ENUM_BASES_MULTI): the words are separate tokens, so every
    mutant family puts blanks / newlines / comments between them (the handler used to look the raw text up: `unsigned  int` was a
    ResolveError — repaired in the library; feature `enum-base:multi-word`).
+ * blanks inside array brackets (mutant kinds `brackets`, `layout+brackets`; v1.pad_brackets, v1.BRACKET_PAIRS): blanks, tabs and comments
+   without a newline around the count text of every `[...]` of the text — `a[ ]` is the null-terminated array `a[]`, `a[ 2 ]`, `a[ n & 3 ]`,
+   `a[2][ ]`, `a[ EOF ]`; fields may now be null-terminated arrays (`f[]`) in every definition set.
  * definition parser correspondence (helpers in harness/v1_c13.py): for every baseline text and every mutant text the declaration list
    of the Lean model of the scanner and the declaration handlers (`CstructModel/DefParser.lean`, driver command `parsedecls`) is compared
    with the declarations recorded from the REAL parser (a recording subclass of `TokenParser`, nothing in /repo is changed), and the
@@ -112,7 +115,7 @@ def gen_items(rnd, n, prefix="", multi=True, twins=None):
         toks += ["*"] * stars
         r2 = rnd.random()
         if r2 < 0.2:
-            cnt = rnd.choice(["2", "3", "0x2", "1 + 1"] + ([rnd.choice(consts)] if consts else []))
+            cnt = rnd.choice(["2", "3", "0x2", "1 + 1", ""] + ([rnd.choice(consts)] if consts else []))
             if cnt in consts:
                 uses.add(cnt)
             toks.append((fname + "[" + cnt + "]",))
@@ -296,21 +299,31 @@ def render(items, rnd=None, f20=False, rich=False, one=False, hits=None):
     return "".join(out)
 
 
+def shown_name(T) -> str:
+    """the display name of a type below the description depth; the name of an array type embeds the raw count text of its declarator
+    (`int48[ cnt ]`): the blanks around a count are layout, not part of the name (observation, display only)"""
+    import re
+    return re.sub(r"\[\s*([^\]]*?)\s*\]", r"[\1]", T.__name__)
+
+
 def describe_type(T, dc, depth=0):
     if isinstance(T, str):
         return ("alias-string", T)
     name = T.__name__
     if issubclass(T, dc.Structure):
         return ("struct" if not issubclass(T, dc.Union) else "union", name, T.size, T.alignment,
-                tuple((f.name, describe_type(f.type, dc, depth + 1) if depth < 3 else f.type.__name__, f.offset, f.bits) for f in T.__fields__))
+                tuple((f.name, describe_type(f.type, dc, depth + 1) if depth < 3 else shown_name(f.type), f.offset, f.bits) for f in T.__fields__))
     if issubclass(T, (dc.Enum, dc.Flag)):
         return ("flag" if issubclass(T, dc.Flag) else "enum", name, T.type.__name__, tuple((k, int(v.value)) for k, v in T.__members__.items()))
     if issubclass(T, dc.Pointer):
-        return ("ptr", describe_type(T.type, dc, depth + 1) if depth < 3 else T.type.__name__)
+        return ("ptr", describe_type(T.type, dc, depth + 1) if depth < 3 else shown_name(T.type))
     from dissect.cstruct.types.base import BaseArray
     if issubclass(T, BaseArray):
         ne = T.num_entries
-        return ("arr", describe_type(T.type, dc, depth + 1), ne if isinstance(ne, int) or ne is None else repr(ne))
+        # a member-sized count is an Expression: described by its text without the blanks around it (blanks inside the brackets of
+        # a declarator are layout; the tokenizer of Expression skips them)
+        return ("arr", describe_type(T.type, dc, depth + 1), ne if isinstance(ne, int) or ne is None else repr(ne).strip() if not hasattr(ne, "expression")
+                else "Expression(" + str(ne.expression).strip() + ")")
     return ("scalar", name, T.size, getattr(T, "signed", None))
 
 
@@ -375,7 +388,7 @@ def toposort_variants(items, rnd, k):
 
 
 KINDS = ["layout", "layout", "layout", "order", "order+layout", "split", "one-comment", "one-comment", "layout-rich", "layout-rich", "order+layout-rich",
-         "order+split", "order"]
+         "order+split", "order", "brackets", "layout+brackets"]
 
 
 def twin_features(items) -> list[str]:
@@ -607,6 +620,11 @@ def run(env) -> Result:
                 text = render(its, rnd, one=True, hits=hits)
             else:
                 text = render(its, rnd if "layout" in kind else None, f20=f20, rich=rich, hits=hits)
+            if "brackets" in kind:
+                # blanks (and comments without a newline) inside array brackets, around the count text
+                text, nb = v1.pad_brackets(rnd, text)
+                for ft in nb:
+                    res.feat("brackets:" + ft)
             for ft in set(hits):
                 res.feat("separator:" + ft)
             probe_parser(text)
@@ -641,6 +659,20 @@ def run(env) -> Result:
             if "layout" in kind or kind == "one-comment":
                 lines.append(sx([A("stripcomments"), text]))
                 metas.append(("strip", text, dc.parser.TokenParser._remove_comments(text)))
+    for base_text, mutant in v1.BRACKET_PAIRS:
+        res.count(("brackets-pair", base_text, mutant))
+        res.feat("brackets:hand-written-pair")
+        probe_parser(mutant)
+        cd = {"family": "layout", "baseline": base_text, "mutant": mutant, "mutation": "brackets", "names": ["B"], "probe": probe.hex()}
+        cs0, cs = dc.cstruct(), dc.cstruct()
+        cs0.load(base_text)
+        try:
+            cs.load(mutant)
+        except Exception as e:  # noqa: BLE001
+            viol(f"the mutated text is rejected ({type(e).__name__}: {e}) although it only differs in blanks inside array brackets", cd)
+            continue
+        if signature(cs, {"B"}, probe, dc) != signature(cs0, {"B"}, probe, dc):
+            viol("blanks inside array brackets changed the resulting types", cd)
     redeclaration_probes(res, viol, dc, mkrng(env["seed"], "c13-redeclare"), 240 if tier == "quick" else 3000)
     option_history_probes(res, viol, dc, mkrng(env["seed"], "c13-options"), 40 if tier == "quick" else 600)
     # ---- alias laws
